@@ -50,6 +50,12 @@ Children(s, e) == {c \in s.present : s.par[c] = e}
 IsLeaf(s, e)   == \A c \in Ents : s.par[c] # e
 \* a configuration names an issuer that no configuration defines: Open refuses the directory (C18)
 Dangling(s)    == \E e \in s.present : s.par[e] # "" /\ s.par[e] \notin s.present
+\* the shared profile file is gone while a configuration still references it: planning stops with an error before anything is
+\* generated (s.profp = the profile file exists; user actions RemoveProfile / AddProfile)
+ProfileMissing(s) == ~s.profp /\ \E e \in s.present : e \in UsesProfile
+\* a run over such a directory is refused as a whole: a failed run, nothing written. (Open comes first and refuses a dangling
+\* issuer under any flag set; the profile is looked up while planning, and a run without any generate flag does not plan.)
+Refusing(s, fl) == Dangling(s) \/ (ProfileMissing(s) /\ fl # {})
 
 \* hash / certc: content value of the entity's own configuration the stored hash / the certificate stands for;
 \* hashp / certp: the same for the profile part of the effective configuration (0 for entities without profile);
@@ -83,7 +89,7 @@ ArtOK(a) ==
   /\ (a.hash = NoHash => a.hashp = 0 /\ a.hashi = "")
 
 TypeOK(s) ==
-  /\ s.cfgc \in [Ents -> Contents] /\ s.prof \in Contents
+  /\ s.cfgc \in [Ents -> Contents] /\ s.prof \in Contents /\ s.profp \in BOOLEAN
   /\ s.par \in [Ents -> Ents \cup {""}] /\ \A e \in Ents : s.par[e] # e
   /\ s.present \subseteq Ents
   /\ s.cfgNewer \in [Ents -> BOOLEAN]
@@ -254,7 +260,11 @@ Apply(s, a) ==
          THEN {[PutArt(s, a.e, [Absent EXCEPT !.exists = TRUE, !.key = "csr"], TRUE) EXCEPT !.last = "env", !.flags = {}]}
          ELSE {}
     [] a.name = "EditProfile" ->   \* the user changes the content of the shared profile
-         IF s.pc = "idle" /\ a.c # s.prof THEN {[s EXCEPT !.prof = a.c, !.last = "env", !.flags = {}]} ELSE {}
+         IF s.pc = "idle" /\ s.profp /\ a.c # s.prof THEN {[s EXCEPT !.prof = a.c, !.last = "env", !.flags = {}]} ELSE {}
+    [] a.name = "RemoveProfile" -> \* the user deletes the shared profile file; no configuration, no artifact is touched
+         IF s.pc = "idle" /\ s.profp /\ UsesProfile # {} THEN {[s EXCEPT !.profp = FALSE, !.last = "env", !.flags = {}]} ELSE {}
+    [] a.name = "AddProfile" ->    \* ... and puts it back with the content it had (file times of profiles are read by no rule)
+         IF s.pc = "idle" /\ ~s.profp THEN {[s EXCEPT !.profp = TRUE, !.last = "env", !.flags = {}]} ELSE {}
     [] a.name = "Expire" ->        \* time passes: the certificate of e (intact chain, issuer key at hand) is now expired.
                                    \* No file is touched: the modification-time relations stay as they are.
          IF a.e \in s.present /\ s.pc = "idle" /\ s.art[a.e].cert /\ ~s.art[a.e].expired /\ s.art[a.e].sigok /\ s.art[a.e].key = "key"
@@ -278,11 +288,11 @@ Apply(s, a) ==
          IF s.pc = "idle" /\ a.e \notin s.present
          THEN {[s EXCEPT !.present = @ \cup {a.e}, !.cfgNewer[a.e] = s.art[a.e].exists, !.last = "env", !.flags = {}]}
          ELSE {}
-    [] a.name = "StartRun" /\ Dangling(s) ->     \* Open refuses the directory: a failed run, nothing written
+    [] a.name = "StartRun" /\ Refusing(s, a.fl) ->     \* Open refuses the directory / planning stops at the missing profile: a failed run, nothing written
          IF s.pc = "idle" /\ a.fl \in FlagSets /\ a.plan = <<>>
          THEN {[s EXCEPT !.flags = a.fl, !.last = "run-failed"]}
          ELSE {}
-    [] a.name = "StartRun" /\ ~Dangling(s) ->    \* Open + PlanBulkUpdate: a.plan is the plan (sequence of entities)
+    [] a.name = "StartRun" /\ ~Refusing(s, a.fl) ->    \* Open + PlanBulkUpdate: a.plan is the plan (sequence of entities)
          IF s.pc = "idle" /\ a.fl \in FlagSets
             /\ { a.plan[i] : i \in DOMAIN a.plan } \in PlanSets(s, a.fl)
             /\ a.plan \in TopoOrders(s, { a.plan[i] : i \in DOMAIN a.plan })
@@ -340,7 +350,7 @@ RunMacro(s, a) ==
 VARIABLES st, nenv      \* nenv counts environment actions (only when MaxEnv > 0)
 
 InitState ==
-  [ cfgc |-> [e \in Ents |-> 0], prof |-> 0, par |-> Parent, present |-> Ents, cfgNewer |-> [e \in Ents |-> FALSE], mt |-> <<>>,
+  [ cfgc |-> [e \in Ents |-> 0], prof |-> 0, profp |-> TRUE, par |-> Parent, present |-> Ents, cfgNewer |-> [e \in Ents |-> FALSE], mt |-> <<>>,
     art |-> [e \in Ents |-> Absent], pc |-> "idle", plan |-> <<>>, pos |-> 0, flags |-> {}, last |-> "none" ]
 
 Init == st = InitState /\ nenv = 0
@@ -360,13 +370,15 @@ BreakSigAct == "BreakSignature" \in EnvActs /\ \E e \in Ents : EnvStep([name |->
 ReplaceAct  == "Replace" \in EnvActs /\ \E e \in Ents : EnvStep([name |-> "Replace", e |-> e])
 MakeCsrAct  == "MakeCsr" \in EnvActs /\ \E e \in Ents : EnvStep([name |-> "MakeCsr", e |-> e])
 EditProfileAct == "EditProfile" \in EnvActs /\ UsesProfile # {} /\ \E c \in Contents : EnvStep([name |-> "EditProfile", c |-> c])
+RemoveProfileAct == "RemoveProfile" \in EnvActs /\ EnvStep([name |-> "RemoveProfile"])
+AddProfileAct == "AddProfile" \in EnvActs /\ EnvStep([name |-> "AddProfile"])
 ExpireAct   == "Expire" \in EnvActs /\ \E e \in Ents : EnvStep([name |-> "Expire", e |-> e])
 RemoveConfigAct == "RemoveConfig" \in EnvActs /\ \E e \in Ents : EnvStep([name |-> "RemoveConfig", e |-> e])
 AddConfigAct == "AddConfig" \in EnvActs /\ \E e \in Ents : EnvStep([name |-> "AddConfig", e |-> e])
 SetIssuerAct == "SetIssuer" \in EnvActs /\ \E e \in Ents : \E p \in AltParents[e] : EnvStep([name |-> "SetIssuer", e |-> e, p |-> p])
-StartRunAct == IF Dangling(st) THEN \E fl \in FlagSets : Step([name |-> "StartRun", fl |-> fl, plan |-> <<>>])
-               ELSE \E fl \in FlagSets : \E S \in PlanSets(st, fl) : \E p \in TopoOrders(st, S) :
-                       Step([name |-> "StartRun", fl |-> fl, plan |-> p])
+StartRunAct == \E fl \in FlagSets :
+                 IF Refusing(st, fl) THEN Step([name |-> "StartRun", fl |-> fl, plan |-> <<>>])
+                 ELSE \E S \in PlanSets(st, fl) : \E p \in TopoOrders(st, S) : Step([name |-> "StartRun", fl |-> fl, plan |-> p])
 WriteOKAct  == Step([name |-> "WriteOK"])
 SignFailAct == "SignFail" \in FaultActs /\ Step([name |-> "SignFail"])
 WriteErrAct == "WriteErr" \in FaultActs /\ Step([name |-> "WriteErr"])
@@ -374,7 +386,7 @@ WriteTornAct == "WriteTorn" \in FaultActs /\ \E c \in CutClasses : Step([name |-
 DieAct      == "Die" \in FaultActs /\ Step([name |-> "Die"])
 
 Next ==
-  \/ EditAct \/ TouchAct \/ DeleteAct \/ TruncateAct \/ StripKeyAct \/ ResaveAct \/ BreakSigAct \/ ReplaceAct \/ MakeCsrAct \/ EditProfileAct \/ ExpireAct \/ SetIssuerAct \/ RemoveConfigAct \/ AddConfigAct
+  \/ EditAct \/ TouchAct \/ DeleteAct \/ TruncateAct \/ StripKeyAct \/ ResaveAct \/ BreakSigAct \/ ReplaceAct \/ MakeCsrAct \/ EditProfileAct \/ RemoveProfileAct \/ AddProfileAct \/ ExpireAct \/ SetIssuerAct \/ RemoveConfigAct \/ AddConfigAct
   \/ StartRunAct \/ WriteOKAct \/ SignFailAct \/ WriteErrAct \/ WriteTornAct \/ DieAct
 
 vars == <<st, nenv>>
@@ -402,7 +414,7 @@ ConvergedAfterDefault ==
 
 \* C10: right after a successful run without generate-all, nothing must be regenerated
 Idempotent ==
-  (st.pc = "idle" /\ st.last = "run-ok" /\ "a" \notin st.flags) => ~Dangling(st) /\ MustSet(st, st.flags) = {}
+  (st.pc = "idle" /\ st.last = "run-ok" /\ "a" \notin st.flags) => ~Refusing(st, st.flags) /\ MustSet(st, st.flags) = {}
 
 \* C15 (and C12's "completes"): from every idle state a fault-free default run cannot get stuck:
 \* every entity it must write is signable when its turn comes.  Checked on the must-plan in any
@@ -413,12 +425,12 @@ RunsThrough(s, plan) ==
   ELSE /\ Signable(s, Head(plan))
        /\ RunsThrough(PutArt(s, Head(plan), NewArt(s, Head(plan)), s.art[Head(plan)].key = "none"), Tail(plan))
 DefaultRunCompletes ==
-  (st.pc = "idle" /\ ~Dangling(st)) => \A p \in TopoOrders(st, MustSet(st, DefaultFlags)) : RunsThrough(st, p)
+  (st.pc = "idle" /\ ~Refusing(st, DefaultFlags)) => \A p \in TopoOrders(st, MustSet(st, DefaultFlags)) : RunsThrough(st, p)
 
 \* C12: an artifact the user supplied without a hash line is not refreshed merely because its
 \* configuration differs: with the default flags it is planned only if its issuer is planned or newer
 NoRefreshWithoutHash ==
-  (st.pc = "idle" /\ ~Dangling(st)) =>
+  (st.pc = "idle" /\ ~Refusing(st, DefaultFlags)) =>
     \A e \in st.present :
       LET a == st.art[e] IN
       (a.hash = NoHash /\ a.cert /\ a.key # "none" /\ e \in MustSet(st, DefaultFlags)) =>
